@@ -191,6 +191,27 @@ def float_precision_cases(ctx):
     return cases
 
 
+def many_errors_cases(ctx):
+    """directed: values that make one validation pass collect MANY errors (11+ wrong members, wrong keys, extra keys), and
+    long conforming values (lists of 16+ fixed scalars, dicts of 20 keys)"""
+    from d42 import schema
+    cases = []
+    for n in (3, 10, 11, 12, 40):
+        cases += [SubCase(schema.list(schema.int), None, ["x"] * n, "many-errors"),
+                  SubCase(schema.list(schema.int), None, [i if i % 2 else "x" for i in range(2 * n)], "many-errors"),
+                  SubCase(schema.dict({"k%d" % i: schema.int for i in range(n)}), None, {"k%d" % i: "s" for i in range(n)}, "many-errors"),
+                  SubCase(schema.dict({"a": schema.int}), None, {"a": 1, **{"e%d" % i: 0 for i in range(n)}}, "many-errors"),
+                  SubCase(schema.any(schema.list(schema.int), schema.list(schema.str)), None, ["x"] * n, "many-errors"),
+                  SubCase(schema.dict({"xs": schema.list(schema.dict({"id": schema.int}))}), None, {"xs": [{"id": "bad"}] * n}, "many-errors"),
+                  SubCase(schema.list(schema.int.min(0)), list(range(n)), list(range(n)), "long-value"),
+                  SubCase(schema.list(schema.bool), [True] * n, [True] * n, "long-value"),
+                  SubCase(schema.list(schema.bytes), [b"A"] * n, [b"A"] * n, "long-value"),
+                  SubCase(schema.list, list(range(100, 100 + n)), list(range(100, 100 + n)), "long-value"),
+                  SubCase(schema.dict({"m": schema.list(schema.str)}), {"m": ["s"] * n}, {"m": ["s"] * n}, "long-value"),
+                  SubCase(schema.dict, {"k%02d" % i: i for i in range(n)}, {"k%02d" % i: i for i in range(n)}, "long-value")]
+    return cases
+
+
 def list_form_cases(ctx):
     """directed: every list form with 1..3 body elements against short value sequences enumerated exhaustively over a
     small member universe that includes members `from_native` cannot convert and relaxed dicts with extra keys"""
